@@ -8,6 +8,7 @@ import (
 	"path/filepath"
 	"regexp"
 	"strings"
+	"time"
 
 	"github.com/mimecast/dtail/verifharness/internal/vlib"
 )
@@ -318,6 +319,7 @@ func c03E2E(r *vlib.Run) {
 		c    c03Case
 		ssh  bool
 		path string
+		slow bool // the consumer of stdout reads 2 KB every 3 ms
 	}
 	var ecs []ecase
 	dir := r.Dir("c03e2e")
@@ -352,6 +354,20 @@ func c03E2E(r *vlib.Run) {
 		}
 		ecs = append(ecs, ecase{c: c, ssh: ssh, path: p})
 	}
+	// a few large files in which nearly every line is selected, read by a slow
+	// consumer: hundreds of selected lines are queued behind it (no context, no
+	// max: the plain filter path)
+	for k := 0; k < r.N(3, 12); k++ {
+		lines, words := genGrepFile(rng, 4000+500*k)
+		c := c03Case{Lines: lines, FinalNL: true, Pattern: []string{".", "[a-z0-9 ]*", words[0] + "|."}[k%3], Invert: false}
+		if k%3 == 1 {
+			c.Pattern, c.Invert = "^zzz-no-such-line$", true
+		}
+		c.Params = [][3]int{{0, 0, 0}}
+		p := filepath.Join(dir, fmt.Sprintf("big%d.log", k))
+		os.WriteFile(p, []byte(strings.Join(lines, "\n")+"\n"), 0644)
+		ecs = append(ecs, ecase{c: c, ssh: fl != nil && k%2 == 1, path: p, slow: true})
+	}
 	vlib.Parallel(len(ecs), 12, func(i int) {
 		e := ecs[i]
 		c := e.c
@@ -370,9 +386,22 @@ func c03E2E(r *vlib.Run) {
 			args = append(args, "--max", fmt.Sprint(p[2]))
 		}
 		var res *vlib.Result
-		if e.ssh {
+		switch {
+		case e.slow:
+			full := []string{"--cfg", "none", "--logger", "stdout", "--logLevel", "error"}
+			env, cwd := []string{"HOME=" + serverlessHome(r)}, serverlessHome(r)
+			if e.ssh {
+				full = append(fl.ClientArgs(), "--logger", "stdout", "--logLevel", "error")
+				env, cwd = fl.ClientEnv(), fl.Home
+			}
+			var out []byte
+			res, out = runPaced(vlib.Cmd{Path: r.Bin("dgrep"), Args: append(full, args...), Env: env, Dir: cwd, Watchdog: 240 * time.Second},
+				pacing{Kind: "slow", Chunk: 2048, DelayMs: 3}, 4096)
+			res.Stdout = out
+			r.Count("e2e_runs_large_selection_slow_consumer", 1)
+		case e.ssh:
 			res = runFleet(r, fl, "dgrep", args, nil)
-		} else {
+		default:
 			res = runServerless(r, "dgrep", args, "", nil)
 		}
 		r.Eval(fmt.Sprintf("e2e|%v|%s|%v|%v|%x", e.ssh, c.Pattern, c.Invert, p, hashStrings(c.Lines)))
